@@ -13,9 +13,9 @@ CH=$(diff -rq /repo "$S" 2>/dev/null | grep -c "^Files")
 ( cd "$S/liball" && make -j16 > "$S/build.log" 2>&1 ) || { echo "[$NAME] does not build: $(grep -m3 error "$S/build.log")"; rm -rf "$S"; exit 3; }
 echo "[$NAME] $CH files changed, builds"
 cd /verif
-for id in C01 C02 C03 C04 C05 C06 C07 C08 C09 C10 C11 C12 C13 C14 C15 C16 C17 C19 C20; do echo $id; done | \
+for id in C01 C02 C03 C04 C05 C06 C07 C08 C09 C10 C11 C12 C13 C14 C15 C16 C17 C18 C19 C20; do echo $id; done | \
   xargs -P 8 -I{} sh -c "VERIF_EVIDENCE_DIR=$S/_ev_{} python3 sa/check.py {} --tier quick --repo $S > $S/{}.out 2>&1; echo \$? > $S/{}.rc"
-for id in C01 C02 C03 C04 C05 C06 C07 C08 C09 C10 C11 C12 C13 C14 C15 C16 C17 C19 C20; do
+for id in C01 C02 C03 C04 C05 C06 C07 C08 C09 C10 C11 C12 C13 C14 C15 C16 C17 C18 C19 C20; do
   rc=$(cat $S/$id.rc)
   if [ "$rc" != "0" ]; then echo "  $id rc=$rc"; grep -v "^VIOLATION" $S/$id.out | grep "^  \|ANALYSIS" | head -4 | cut -c1-260; fi
 done
